@@ -278,6 +278,36 @@ pub fn run_unsub_race(body: &[Sexp]) -> String {
     if late.load(Ordering::SeqCst) > 0 {
       return "the subscriber was called after unsubscribe() had returned".into();
     }
+    // the same with a source that stays alive: the subscription the task produces must be torn down as well
+    let returned = Arc::new(AtomicBool::new(false));
+    let late = Arc::new(AtomicUsize::new(0));
+    let hot: SubjectThreads<i32, std::convert::Infallible> = SubjectThreads::default();
+    let (inside_tx, inside_rx) = std::sync::mpsc::channel::<()>();
+    let (fin_tx, fin_rx) = std::sync::mpsc::channel::<()>();
+    let (r2, l2, h2) = (returned.clone(), late.clone(), hot.clone());
+    let subscription = observable::defer(move || {
+      let _ = inside_tx.send(());
+      std::thread::sleep(Duration::from_millis(15));
+      let _ = fin_tx.send(());
+      h2.clone()
+    })
+    .subscribe_on(pool.clone())
+    .subscribe(move |_: i32| {
+      if r2.load(Ordering::SeqCst) {
+        l2.fetch_add(1, Ordering::SeqCst);
+      }
+    });
+    if inside_rx.recv_timeout(Duration::from_secs(10)).is_err() {
+      return "the subscribing task never started".into();
+    }
+    subscription.unsubscribe();
+    returned.store(true, Ordering::SeqCst);
+    let _ = fin_rx.recv_timeout(Duration::from_secs(10));
+    std::thread::sleep(Duration::from_millis(5));
+    hot.clone().next(1);
+    if late.load(Ordering::SeqCst) > 0 {
+      return "the subscription produced by a cancelled subscribing task was left alive: the subscriber was called after unsubscribe() had returned".into();
+    }
   }
   "ok".into()
 }
